@@ -264,3 +264,142 @@ func focusedCollectMembershipShapes() []string {
 	}
 	return out
 }
+
+// focusedOrderAliasShapes: ORDER BY on a RETURN / WITH alias whose declaration comes AFTER (or before) items without an alias that are
+// not plain variables — the sort item must be one of the statement's output columns (or a FROM column) whatever the position of the
+// alias in the list.
+func focusedOrderAliasShapes() []string {
+	var out []string
+	unaliased := []string{"a.name", "id(a)", "a.a", "a"}
+	aliased := [][2]string{{"a.name", "nm"}, {"id(a)", "i"}, {"a.a", "v"}}
+	tails := []string{"", " desc", " limit 5", " descending skip 1 limit 2"}
+	n := 0
+	for _, u := range unaliased {
+		for _, al := range aliased {
+			// un-aliased item first, the sorted alias after it; and the other way round
+			out = append(out, fmt.Sprintf("match (a) return %s, %s as %s order by %s%s", u, al[0], al[1], al[1], tails[n%len(tails)]))
+			out = append(out, fmt.Sprintf("match (a) return %s as %s, %s order by %s%s", al[0], al[1], u, al[1], tails[(n+1)%len(tails)]))
+			n++
+		}
+	}
+	out = append(out,
+		"match (a)-[]->(b) return a.name, count(b) as c order by c desc",
+		"match (a)-[]->(b) return id(a), a.name, count(b) as c order by c desc limit 3",
+		"match (a)-[]->(b) return count(b) as c, a.name order by c",
+		"match (a)-[r]->(b) return id(r), a.name as x, b.name as y order by y, x",
+		"match (a)-[r]->(b) return a.name, id(r) as i, b.name, id(b) as j order by j desc, i",
+		"match (a)-[r]->(b) return a.name as x, id(r), b.name as y order by x, y desc",
+		"match (a) return a.name, a.a as v, id(a) as i order by i desc, v",
+		"match (a) return distinct a.name, id(a) as i order by i",
+		"match (a) with a, id(a) as i, a.name as nm order by nm return a.name, i as j order by j",
+		"match (a) with a.name as nm, id(a) as i order by i desc limit 2 return nm, i",
+		"match (a)-[]->(b) with a, count(b) as c return a.name, c as k order by k desc",
+	)
+	return out
+}
+
+// focusedPathMembershipShapes: `x IN nodes(p)` / `r IN relationships(p)` on a bound path, in a WHERE (where the translator stages the path
+// into a lateral sub-select) and as a projection item (where it does not), over fixed hops, chains and expansions, directly and through WITH.
+func focusedPathMembershipShapes() []string {
+	var out []string
+	paths := []string{
+		"match p = (a)-[r]->(b)",
+		"match p = (a)-[]->(b)",
+		"match p = (a)-[r]->(b)-[s]->(e)",
+		"match p = (a)-[:EdgeKind1*1..2]->(b)",
+	}
+	uses := []string{
+		"match (c)-[q]->(d) where q in relationships(p) return q",
+		"match (c)-[q]->(d) where q in relationships(p) return c, d",
+		"match (c) return c, c in nodes(p) as member",
+		"match (c) where c in nodes(p) return c",
+		"match (c) where not c in nodes(p) return c",
+		"match (c)-[q]->(d) return q, q in relationships(p) as member",
+		"match (c)-[q]->(d) where q in relationships(p) and c in nodes(p) return q",
+		"match (c)-[q]->(d) where q in relationships(p) or d in nodes(p) return q",
+		"return a in nodes(p) as m",
+		"with p, a match (c) where c in nodes(p) return c, a",
+		"with p match (c)-[q]->(d) return q in relationships(p) as m, q",
+		"match (c) with c, c in nodes(p) as m return c, m",
+	}
+	for _, p := range paths {
+		for _, u := range uses {
+			out = append(out, p+" "+u)
+		}
+	}
+	out = append(out,
+		"match p = (a)-[r]->(b) return r in relationships(p) as m",
+		"match p = (a)-[r]->(b) where r in relationships(p) return a",
+		"match p = (a)-[r]->(b) where a in nodes(p) return b",
+	)
+	return out
+}
+
+// focusedSortKeywordShapes: every grammar spelling of the sort direction (ASC / ASCENDING / DESC / DESCENDING, any letter case, default), in
+// RETURN and in WITH, alone and mixed over several keys, with SKIP / LIMIT so that a wrong direction selects different rows. Keys are ids
+// (unique, integer): the expected order has no ties and does not touch the jsonb-ordering deviation.
+func focusedSortKeywordShapes() []string {
+	var out []string
+	for _, d := range []string{"", " asc", " ASC", " ascending", " ASCENDING", " Ascending", " desc", " DESC", " descending", " DESCENDING", " Descending", " dEsCeNdInG"} {
+		out = append(out,
+			"match (n) return id(n) order by id(n)"+d,
+			"match (n) return id(n) order by id(n)"+d+" skip 1 limit 2",
+			"match (n) return n order by id(n)"+d+" limit 1",
+			"match (n) with n order by id(n)"+d+" limit 2 return id(n)",
+			"match (a)-[r]->(b) return id(r) order by id(r)"+d+" limit 1",
+		)
+	}
+	out = append(out,
+		"match (a)-[r]->(b) return id(a), id(r) order by id(a) ascending, id(r) descending skip 1 limit 2",
+		"match (a)-[r]->(b) return id(a), id(r) order by id(a) descending, id(r) ascending limit 3",
+		"match (a)-[r]->(b) return id(a), id(r) order by id(a) DESCENDING, id(r) DESCENDING limit 2",
+		"match (a)-[r]->(b) with a, r order by id(r) DESCENDING limit 1 return id(a), id(r)",
+		"match (a)-[r]->(b) with a, r order by id(a) ascending, id(r) descending skip 1 return id(a), id(r) order by id(r) descending limit 2",
+		"match (n) with id(n) as i order by i descending limit 2 return i order by i ascending",
+	)
+	return out
+}
+
+type paramQuery struct {
+	q      string
+	params map[string]any
+}
+
+// focusedParamMapShapes: a pattern property map given as a parameter (`(a $p)`, `-[r $p]->`) at every element position of a hop, a chain and
+// of several MATCH clauses, alone and next to a second parameter map or a literal map — every OTHER element of the query part must stay
+// unconstrained.
+func focusedParamMapShapes() []paramQuery {
+	nodeP := []map[string]any{{"name": "x"}, {"a": int64(1)}, {"name": "y", "a": int64(2)}}
+	relP := []map[string]any{{"w": int64(1)}, {"name": "x"}}
+	var out []paramQuery
+	add := func(q string, m map[string]any) { out = append(out, paramQuery{q, m}) }
+	for _, p := range nodeP {
+		add("match (a $p) return a", map[string]any{"p": p})
+		add("match (a $p)-[r]->(b) return a, r, b", map[string]any{"p": p})
+		add("match (a)-[r]->(b $p) return a, r, b", map[string]any{"p": p})
+		add("match (a $p)<-[r]-(b) return a, b", map[string]any{"p": p})
+		add("match (a:NodeKind1 $p)-[r:EdgeKind1]->(b:NodeKind2) return b", map[string]any{"p": p})
+		add("match (a $p)-[r]->(b)-[q]->(c) return a, b, c", map[string]any{"p": p})
+		add("match (a)-[r]->(b $p)-[q]->(c) return a, b, c", map[string]any{"p": p})
+		add("match (a)-[r]->(b)-[q]->(c $p) return a, b, c", map[string]any{"p": p})
+		add("match (a $p) match (b) return a, b", map[string]any{"p": p})
+		add("match (a) match (b $p) return a, b", map[string]any{"p": p})
+		add("match (a $p) match (b)-[r]->(c) return a, r", map[string]any{"p": p})
+		add("match (a $p), (b) return a, b", map[string]any{"p": p})
+		add("match (a $p) optional match (a)-[r]->(b) return a, b", map[string]any{"p": p})
+		add("match (a $p) with a match (b) return a, b", map[string]any{"p": p})
+		add("match (a $p)-[r]->(b {name: 'y'}) return a, b", map[string]any{"p": p})
+		add("match (a $p)-[r*1..2]->(b) return a, b", map[string]any{"p": p})
+	}
+	for _, p := range relP {
+		add("match (a)-[r $p]->(b) return a, r, b", map[string]any{"p": p})
+		add("match (a)-[r $p]->(b)-[q]->(c) return a, q, c", map[string]any{"p": p})
+		add("match (a)-[r]->(b)-[q $p]->(c) return a, r, c", map[string]any{"p": p})
+		add("match (a)-[r $p]->(b) match (c)-[q]->(d) return r, q", map[string]any{"p": p})
+		add("match (a)<-[r $p]-(b) return a, b", map[string]any{"p": p})
+	}
+	add("match (a $p)-[r $q]->(b) return a, r, b", map[string]any{"p": nodeP[0], "q": relP[0]})
+	add("match (a $p)-[r]->(b $q) return a, r, b", map[string]any{"p": nodeP[0], "q": nodeP[1]})
+	add("match (a $p)-[r]->(b) where b.a = 1 return a, b", map[string]any{"p": nodeP[0]})
+	return out
+}
